@@ -553,6 +553,18 @@ Definition spec_is_failure (k : wkind) (d : derr) : bool :=
   match d with
   | DPanic => true
   | DNil => false
+  | DShaped _ b =>
+    (* errors.Is semantics: whatever the shape (wrapped twice, joined, multi-%w, custom Is), the
+       sentinel decides as it does bare - per site *)
+    match k with
+    | WGrpcClient => false
+    | WGrpcServerUnary | WGrpcServerStream | WGrpcServerChain =>
+      match b with BDeadline | BBreakerUnavailable => true | _ => false end
+    | WRedisCmd | WRedisIgnoredCmd | WRedisPipeline | WRedisReal =>
+      match b with BRedisNil | BCanceled => false | _ => true end
+    | WSqlExec | WSqlPredicate | WSqlM _ _ =>
+      match b with BSqlNoRows | BSqlTxDone | BCanceled => false | _ => true end
+    end
   | _ =>
     match k with
     | WGrpcClient =>
